@@ -966,7 +966,7 @@ def archs_for(tier):
 
 def build_jobs(tier, seed):
     jobs = []
-    tiny_eps = 16 * 10 if tier == "quick" else 16 * 500
+    tiny_eps = 16 * 10 if tier == "quick" else 16 * 350
     per = 5 if tier == "quick" else 60
     archs = archs_for(tier)
     for first in range(0, tiny_eps, per):
@@ -982,7 +982,7 @@ def build_jobs(tier, seed):
                      "tag": "history-shipped-model"})
     # the cache histories named by the quantifier, spelled out
     names = sorted(template_histories(random.Random(0), 4))
-    reps = 2 if tier == "quick" else 40
+    reps = 2 if tier == "quick" else 16
     for arch in archs:
         for tiny in ((True,) if tier == "quick" else (True, False)):
             for i in range(0, len(names), 2):
